@@ -63,6 +63,8 @@ func cmdShard(args []string) {
 	insertOnly := fs.Bool("insert-only", false, "insert batches only")
 	maxBatch := fs.Int("maxbatch", 0, "largest random batch (0 = 5)")
 	nids := fs.Int("nids", 0, "size of the id universe (0 = configuration default)")
+	bfreq := fs.Int("backup-freq", 1, "backup mode: minimum age in seconds of the newest backup before another one is taken")
+	bcount := fs.Int("backup-count", 2, "backup mode: number of backups kept")
 	fs.Parse(args)
 	cfg, ok := sd.Configs[*cfgName]
 	if !ok {
@@ -100,7 +102,7 @@ func cmdShard(args []string) {
 	case "graph":
 		opts.Graph = true
 		opts.Rank = *rank
-	case "fault", "conc":
+	case "fault", "conc", "backup":
 	default:
 		fmt.Fprintln(os.Stderr, "unknown mode", *mode)
 		os.Exit(2)
@@ -109,6 +111,19 @@ func cmdShard(args []string) {
 		for h := 0; h < *hist; h++ {
 			r := sd.NewRunner(cfg, *seed*1000+int64(h), tw, *dir)
 			if err := r.RunConcHistory(h, sd.ConcOpts{Batches: *batches, Readers: *readers, Rank: *rank, Cold: *cold, MaxBatch: *maxBatch, Other: *other}); err != nil {
+				fmt.Fprintln(os.Stderr, "driver error:", err)
+				os.Exit(2)
+			}
+			tw.Flush()
+		}
+		fmt.Printf("{\"lines\":%d}\n", tw.N)
+		return
+	}
+	if *mode == "backup" {
+		for h := 0; h < *hist; h++ {
+			r := sd.NewRunner(cfg, *seed*1000+int64(h), tw, *dir)
+			r.MaxBatch = *maxBatch
+			if err := r.RunBackupHistory(h, *bfreq, *bcount, *batches); err != nil {
 				fmt.Fprintln(os.Stderr, "driver error:", err)
 				os.Exit(2)
 			}
